@@ -9,6 +9,7 @@ import FinProto.Pinned
 import FinProto.Spec
 import FinProto.Registry
 import FinProto.Cost
+import FinProto.NoSvc
 open FinProto FinProto.Wire
 
 def showOutcome (f : α → String) : Outcome α → String
@@ -57,6 +58,13 @@ def runLine (env : Env) (toks : List String) : String :=
     match ty.toNat?, parseHex hex with
     | some ty, some bs =>
       showOutcome (fun (p : Val × Bytes) => s!"{bs.length - p.2.length} | " ++ showVal p.1) (decode env ty bs)
+    | _, _ => "bad-case"
+  | "encns" :: pre :: rest =>          -- Encode with no checksum service registered
+    match parseHex pre, pVal rest with
+    | some pre, some (v, []) =>
+      showOutcome (fun (p : Val × Bytes) =>
+        (if p.2.take pre.length == pre then "" else "PRE-CHANGED ") ++ hexOf (p.2.drop pre.length) ++ " | " ++ showVal p.1)
+        (encodeNS env v pre)
     | _, _ => "bad-case"
   | "penc" :: _ :: rest =>
     match pVal rest with
